@@ -39,6 +39,11 @@ def unions(maxlen):
                 out.append(T.Union("typing.Union", list(ms), none_at=none_at))
                 if n == 2:
                     out.append(T.Union("|", list(ms), none_at=none_at))
+    # a member that itself admits None (a Literal holding None) in a union that does NOT declare None: both orders with every pool member
+    litn = T.LiteralLeaf("LitaN", 'Literal["a", None]', ["a", None])
+    for m in P:
+        out.append(T.Union("typing.Union", [m, litn]))
+        out.append(T.Union("typing.Union", [litn, m]))
     # Optional spellings of single members
     for m in P:
         for sp in ("typing.Optional", "typing.Union", "|", "None|"):
